@@ -22,7 +22,9 @@ var T *testing.T
 type Actor struct {
 	Name   string
 	gate   chan func()
-	state  atomic.Int32 // 0 at gate, 1 running/in-call, 2 finished
+	resume chan struct{}
+	state  atomic.Int32 // 0 at gate, 1 running/in-call, 2 finished, 3 parked at a hook inside a step
+	Site   int          // hook site the actor is parked at
 	fail   atomic.Pointer[Failure]
 	closed bool
 }
@@ -54,7 +56,7 @@ type B struct {
 
 // NewActor starts an actor goroutine inside the bubble.
 func (b *B) NewActor(name string) *Actor {
-	a := &Actor{Name: name, gate: make(chan func())}
+	a := &Actor{Name: name, gate: make(chan func()), resume: make(chan struct{})}
 	b.actors = append(b.actors, a)
 	go func() {
 		defer func() {
@@ -87,6 +89,28 @@ func (b *B) Step(a *Actor, f func()) {
 	b.Check()
 }
 
+// Yield parks the calling actor at a hook inside its current step until the
+// controller resumes it (called from hooks in the code under test).
+func (a *Actor) Yield(site int) {
+	a.Site = site
+	a.state.Store(3)
+	<-a.resume
+	a.state.Store(1)
+}
+
+// Yielded reports whether the actor is parked at a hook.
+func (a *Actor) Yielded() bool { return a.state.Load() == 3 }
+
+// Resume lets an actor parked at a hook continue and waits for the bubble to settle.
+func (b *B) Resume(a *Actor) {
+	if !a.Yielded() {
+		b.C.Bugf("actor %s resumed while not parked at a hook", a.Name)
+	}
+	a.resume <- struct{}{}
+	synctest.Wait()
+	b.Check()
+}
+
 // Check converts an actor failure into the run's verdict.
 func (b *B) Check() {
 	for _, a := range b.actors {
@@ -104,6 +128,19 @@ func (b *B) Settle() { synctest.Wait(); b.Check() }
 
 // Finish closes all gates of actors that are parked (call at the end of root).
 func (b *B) Finish() {
+	for round := 0; round < 50; round++ {
+		again := false
+		for _, a := range b.actors {
+			if a.Yielded() {
+				a.resume <- struct{}{}
+				again = true
+			}
+		}
+		synctest.Wait()
+		if !again {
+			break
+		}
+	}
 	for _, a := range b.actors {
 		if a.AtGate() && !a.closed {
 			a.closed = true
